@@ -4,7 +4,9 @@
    are instantiated with tables the harness sampled from the real functions for exactly the strings
    of the case; participle's unquote and path.Match with the executable stand-ins of lib/GoStr.v. *)
 From LR Require Export lib.Base lib.GoStr model.LqlAst model.LqlLex model.LqlParse model.LqlPrint model.LqlEval.
+From LR Require Export model.LqlTimeFmt.
 From LR Require Import proofs.LqlParseP.
+From LR Require Import proofs.LqlTimeFmtP.
 
 Record env := Env {
   e_times : list (bytes * option Z);
@@ -23,7 +25,17 @@ Definition or_nil (o : option bytes) : bytes := match o with Some b => b | None 
 
 Definition m_quote (e : env) (s : bytes) : bytes := or_nil (assoc (e_quotes e) s).
 Definition m_line (e : env) (t : tagset) : bytes := or_nil (assoc_by tagset_eqb (e_lines e) t).
-Definition m_fmt (e : env) (z : Z) : bytes := or_nil (assoc_by Z.eqb (e_fmt e) z).
+(* time points are printed by the model of DateTime.String() (model/LqlTimeFmt.v, the code's variant); the table
+   e_fmt holds what the real DateTime.String() wrote (unquoted) for every time point of the case: fmt_ok compares *)
+Definition m_fmt (e : env) (z : Z) : bytes := fmt_time z.
+(* ... and what the real parseLqlDateTime made of that text (e_times has it when the printed statement lexes) is what
+   the model of parseLqlDateTime makes of it (read_time: the function the time round-trip theorem is about) *)
+Definition fmt_ok (e : env) : bool :=
+  forallb (fun p => bytes_eqb (fmt_time (fst p)) (snd p) &&
+                    match assoc (e_times e) (snd p) with
+                    | Some r => option_eqb Z.eqb r (read_time (2026, 10, 1)%Z (snd p))
+                    | None => true
+                    end) (e_fmt e).
 Definition m_tags (e : env) : bytes -> option tagset := assoc_opt (e_tags e).
 Definition m_time (e : env) : bytes -> option Z := assoc_opt (e_times e).
 Definition m_size (e : env) : bytes -> option N := assoc_opt (e_sizes e).
@@ -76,7 +88,7 @@ Definition check_stmt (text : bytes) (e : env) (obs : sobs) : bool :=
   match parse_lql_text e text, obs with
   | None, SErr => true
   | Some a, SOk a' p re =>
-      lql_eqb a a' && bytes_eqb (print_lql e a) p && option_eqb lql_eqb (parse_lql_text e p) re && image_ok e a p
+      lql_eqb a a' && bytes_eqb (print_lql e a) p && option_eqb lql_eqb (parse_lql_text e p) re && image_ok e a p && fmt_ok e
   | _, _ => false
   end.
 
